@@ -95,7 +95,7 @@ def replica_case(scn, rseed):
             last = p["steps"]
     fixed.append({"steps": S})
     s["plan"] = fixed
-    return {"seed": rseed, "scn": s, "props": [PROP]}
+    return {"seed": rseed, "scn": s, "props": [PROP], "inc_timeout": 60 + S // 2}
 
 
 def estimate(rundir, n_intf):
